@@ -11,7 +11,7 @@
 // @stubs Phreeqc engine entry points called by do_run (events, see harness/common/engine_run_stubs.inc); iostream model
 // @outside what the engine writes; files on disk (stream pointers are null: file switches off)
 // @id C09.views_after_stopped_run
-// @also C08
+// @also C08 C14
 // @engine B
 // @entry vfh_C09_stopped_run
 // @shared_state_watch
@@ -19,7 +19,7 @@
 // @reach stopped_run.done
 // @funcs IPhreeqc::RunString; IPhreeqc::do_run; IPhreeqc::check_database; IPhreeqc::update_errors
 // @bounds the real RunString -> do_run path with the stub engine of C09.do_run_views emitting text in 1..3 simulations; the run stops on an error (the engine throws IPhreeqcStop, as error_msg(..., STOP) does) while reading simulation k in 0..3 (0 = no error; case split) after that simulation's text has been written; string switches all on or all off
-// @oracle whenever a run ends - normally or stopped by an error - every line view agrees with its string: line accessor i returns exactly line i of the output / log / selected-output string that the same instance returns, "" outside 0..count-1, count = number of lines; the call returns normally and its return value is non-zero exactly when it stopped on an error
+// @oracle whenever a run ends - normally or stopped by an error - every line view agrees with its string: line accessor i returns exactly line i of the output / log / selected-output string that the same instance returns, "" outside 0..count-1, count = number of lines; the call returns normally and its return value is non-zero exactly when it stopped on an error; and because the simulations read before the stop have defined reactants, the component list is rebuilt at the next query (GetComponentCount / GetComponent) after every run, stopped or not
 // @stubs as C09.do_run_views
 // @outside what the engine writes; files on disk
 #include "../common/engine_stubs.inc"
@@ -148,12 +148,14 @@ extern "C" void vfh_C09_stopped_run(void)
 	new (&ip->PhreeqcPtr->title_x) std::string();
 	/* leftovers of an earlier run in the line views */
 	ip->OutputLines.push_back("stale"); ip->LogLines.push_back("stale");
+	ip->UpdateComponents = false;            /* the list was queried after the previous run */
 
 	int rc = -99; bool threw = false;
 	try { rc = ip->RunString("SOLUTION 1\nEND\n"); } catch (...) { threw = true; }
 	vf_reach("stopped_run.done");
 	vf_check("stopped.returns_normally", !threw);
 	vf_check("stopped.nonzero_iff_error", (rc != 0) == (g_stop_at != 0));
+	vf_check("stopped.component_list_rebuilt_at_next_query", ip->UpdateComponents);
 	vf_check("stopped.output_written_before_the_stop_is_kept", !on || strstr(ip->GetOutputString(), "out line 1") != 0);
 	vf_check("stopped.output_lines_agree_with_string", lines_match(on ? ip->GetOutputString() : "", ip->GetOutputStringLineCount(), g_out, ip));
 	vf_check("stopped.log_lines_agree_with_string", lines_match(on ? ip->GetLogString() : "", ip->GetLogStringLineCount(), g_log, ip));
